@@ -51,6 +51,39 @@ type Case struct {
 	B    *V     `json:"b,omitempty"`    // right operand (bin, fast; obs of a binary operator)
 	Same bool   `json:"same,omitempty"` // bin: both operands are the same variable
 	Form string `json:"form,omitempty"` // obs: how the script itself looks at the result — gettype | is | same | next
+	// Void (bin, un, truth): which operands are written as a call of a function that returns nothing
+	// (`c03void()`) instead of a variable — "a" | "b" | "ab". A / B are null on those sides: 'no value'
+	// is identified with null at the operator boundary, so the model / reference answer is the null answer.
+	Void string `json:"void,omitempty"`
+}
+
+// voidCall: the operand expression of a Void side (the function is declared in the prelude)
+const voidCall = "c03void()"
+
+func (c Case) voidA() bool { return strings.Contains(c.Void, "a") }
+func (c Case) voidB() bool { return strings.Contains(c.Void, "b") }
+func (c Case) showA() string {
+	if c.voidA() {
+		return "<void call>"
+	}
+	return c.A.Show()
+}
+func (c Case) showB() string {
+	if c.voidB() {
+		return "<void call>"
+	}
+	return c.B.Show()
+}
+
+// voidSub writes the Void operands of an expression / statement as the call itself
+func (c Case) voidSub(s, an, bn string) string {
+	if c.voidA() {
+		s = strings.ReplaceAll(s, "$"+an, voidCall)
+	}
+	if c.voidB() && bn != an {
+		s = strings.ReplaceAll(s, "$"+bn, voidCall)
+	}
+	return s
 }
 
 func (c Case) Key() string {
@@ -64,14 +97,24 @@ func (c Case) Key() string {
 	if c.Form != "" {
 		k += " " + c.Form
 	}
+	if c.Void != "" {
+		k += " void:" + c.Void
+	}
 	return k
 }
 
 func (c Case) classes() string {
-	if c.B != nil {
-		return c.A.Class() + "," + c.B.Class()
+	ca := c.A.Class()
+	if c.voidA() {
+		ca = "void"
 	}
-	return c.A.Class()
+	if c.B != nil {
+		if c.voidB() {
+			return ca + ",void"
+		}
+		return ca + "," + c.B.Class()
+	}
+	return ca
 }
 
 func (c Case) Show() string {
@@ -80,9 +123,9 @@ func (c Case) Show() string {
 		if c.Same {
 			return "$x " + opByName[c.Op].Sym + " $x  with $x = " + c.A.Show()
 		}
-		return c.A.Show() + " " + opByName[c.Op].Sym + " " + c.B.Show()
+		return c.showA() + " " + opByName[c.Op].Sym + " " + c.showB()
 	case "un":
-		return opByName[c.Op].Sym + " " + c.A.Show()
+		return opByName[c.Op].Sym + " " + c.showA()
 	case "fast":
 		return "$a " + opByName[c.Op].Sym + " <literal " + c.B.Show() + ">  with $a = " + c.A.Show()
 	case "forle":
@@ -102,7 +145,7 @@ func (c Case) Show() string {
 		}
 		return "(" + e + ") + 1"
 	}
-	return c.Op + "(" + c.A.Show() + ")"
+	return c.Op + "(" + c.showA() + ")"
 }
 
 // is_<kind> function applied by the obs form "is"
@@ -158,9 +201,9 @@ func (c Case) stmt(i int, vals *[]V, sb *strings.Builder) {
 	}
 	switch c.Kind {
 	case "bin":
-		sb.WriteString(guarded(i, binExpr(c.Op, an, bn)))
+		sb.WriteString(guarded(i, c.voidSub(binExpr(c.Op, an, bn), an, bn)))
 	case "un":
-		sb.WriteString(guarded(i, unExpr(c.Op, an)))
+		sb.WriteString(guarded(i, c.voidSub(unExpr(c.Op, an), an, bn)))
 	case "fast":
 		// literal right operand: `$a <= 5` builds the fused VarIntLe node, other operators the plain node with a literal child
 		sb.WriteString(guarded(i, "$"+an+" "+opByName[c.Op].Sym+" "+literal(*c.B)))
@@ -168,7 +211,7 @@ func (c Case) stmt(i int, vals *[]V, sb *strings.Builder) {
 		// `for (; $a <= 5; )`: ForStatement asks the fused node for a Go bool directly (BoolTest fast path)
 		sb.WriteString("try { $k = false; for (; $" + an + " <= " + literal(*c.B) + "; ) { $k = true; break; } __r(" + id + ", $k); } catch (Throwable $e) { __e(" + id + ", $e->getMessage()); }\n")
 	case "truth":
-		sb.WriteString("try { " + truthStmt(c.Op, i, an) + " } catch (Throwable $e) { __e(" + id + ", $e->getMessage()); }\n")
+		sb.WriteString("try { " + c.voidSub(truthStmt(c.Op, i, an), an, bn) + " } catch (Throwable $e) { __e(" + id + ", $e->getMessage()); }\n")
 	}
 }
 
@@ -851,6 +894,53 @@ func (r *runner) matrix(vals []V) {
 	r.truthLaw(vals)
 }
 
+// operand kind "void call": a call of a function that returns nothing, written directly as the left /
+// right / only operand of every operator and in every truthiness context. 'No value' is identified with
+// null at the operator boundary: the twin case with null in a variable goes through process (model,
+// documented results, result kind), the void case must not crash and must give exactly the twin's outcome.
+func (r *runner) voidOperands(vals []V) {
+	var void, twin []Case
+	add := func(c Case) {
+		t := c
+		t.Void = ""
+		void, twin = append(void, c), append(twin, t)
+	}
+	null := vn()
+	for _, op := range binOps {
+		for i := range vals {
+			w := vals[i]
+			add(Case{Kind: "bin", Op: op.Name, A: null, B: &w, Void: "a"})
+			add(Case{Kind: "bin", Op: op.Name, A: w, B: &null, Void: "b"})
+		}
+		add(Case{Kind: "bin", Op: op.Name, A: null, B: &null, Void: "ab"})
+	}
+	for _, op := range unOps {
+		add(Case{Kind: "un", Op: op.Name, A: null, Void: "a"})
+	}
+	for _, tc := range truthCtx {
+		add(Case{Kind: "truth", Op: tc, A: null, Void: "a"})
+	}
+	touts := r.process(twin)
+	vouts := evalBatch(r.e, void)
+	for i, cs := range void {
+		o := vouts[i]
+		if o.Kind != "val" {
+			if b := evalBare(r.e, cs); b.Kind == "crash" {
+				o = b
+			}
+		}
+		r.c.Eval(cs.Key(), true)
+		r.c.Hit("void:" + cs.Kind + ":" + cs.Op + ":" + cs.Void)
+		r.c.Hit("void-outcome:" + o.Kind)
+		switch {
+		case o.Kind == "crash":
+			r.viol("crash:"+cs.Op+":"+cs.classes(), "Go panic evaluating "+cs.Show()+": "+firstLine(o.Msg), cs)
+		case canonOut(o, false) != canonOut(touts[i], false):
+			r.viol("void-not-null:"+cs.Op, cs.Show()+" gives "+showOut(o)+", the same with null in place of the call gives "+showOut(touts[i]), cs)
+		}
+	}
+}
+
 // literal right operands: the fused / literal-child nodes must agree with the plain nodes
 func (r *runner) fastPaths(vals []V) {
 	lits := []V{vi(0), vi(1), vi(-1), vi(5), vi(63), vf(0.5), vs("a"), vs(""), vs("0"), vb(true), vb(false), vn()}
@@ -1064,6 +1154,7 @@ func Run(c *vh.Ctx) {
 	pool := boundaryPool()
 	r.matrix(pool)
 	r.fastPaths(pool)
+	r.voidOperands(kindPool())
 	r.observeAll(pool, kindPool())
 	c.Res.Exhaustive = true
 	c.Res.ExhaustiveWhat = fmt.Sprintf("all %d binary operators × %d×%d boundary operands (+ the same-variable diagonal), %d unary operators/casts × %d operands, %d truthiness contexts × %d operands, literal-right-operand forms; every non-value outcome re-run outside try; the result kind fixed by the language (. string, comparisons/logical bool, <=> int, / float, bit operations and shifts int, - * ** %% number) asserted on every one of these evaluations and through gettype() in the script on the same %d×%d pairs, is_<kind>() / === documented result / the next operator (+ 1) on %d×%d kind representatives",
